@@ -935,8 +935,11 @@ impl IndexManager {
 
     /// Remove an entry by encoding key.
     ///
-    /// Writes a delete tombstone (status 3) to the update section.
-    /// Returns `true` if the entry was found, `false` otherwise.
+    /// Writes a delete tombstone (status 3) to the update section. If the
+    /// update section is full, flushes it first (merge into sorted section),
+    /// then retries, like `add_entry`.
+    /// Returns `true` if the entry was found and the tombstone was recorded,
+    /// `false` otherwise.
     pub fn remove_entry(&mut self, key: &EncodingKey) -> bool {
         // Check existence first (searches both sections)
         let entry = self.lookup(key);
@@ -952,18 +955,31 @@ impl IndexManager {
         truncated_key[..9.min(key_bytes.len())]
             .copy_from_slice(&key_bytes[..9.min(key_bytes.len())]);
 
-        if let Some(index) = self.indices.get_mut(&index_id) {
-            let tombstone = UpdateEntry::new(
+        let make_tombstone = || {
+            UpdateEntry::new(
                 truncated_key,
-                entry.archive_location,
+                entry.archive_location.clone(),
                 entry.size,
                 UpdateStatus::Delete,
-            );
-            index.update_section.append(tombstone);
+            )
+        };
+
+        let Some(index) = self.indices.get_mut(&index_id) else {
+            return false;
+        };
+        if index.update_section.append(make_tombstone()) {
             return true;
         }
 
-        false
+        // Update section full -- flush (merge into sorted), then retry
+        if let Err(e) = self.flush_updates_for_bucket(index_id) {
+            warn!("Failed to flush bucket {index_id:02x} before removing entry: {e}");
+            return false;
+        }
+
+        self.indices
+            .get_mut(&index_id)
+            .is_some_and(|index| index.update_section.append(make_tombstone()))
     }
 
     /// Check if an entry exists by encoding key
